@@ -269,7 +269,13 @@ def run_scenario(run, e4, sc):
             if maxlag > 0.5:
                 timing_inconclusive = "exit %.1fs after %s but scheduling lag %.2fs" % (t_exit - t_sig, signame, maxlag)
             else:
-                v.append(("master-exit-late", "%s: master exited %.2f s after the signal, limit %.1f (graceful_timeout=%d)" % (
+                mech = "master-exit-late"
+                if signame in ("INT", "QUIT") and wc == "gthread" and sc["duration"] in ("never", "overruns") and \
+                        any(p in sc["phases"] for p in ("app", "stream")):
+                    # the threaded worker's quick exit ends in sys.exit(): the interpreter then waits for the handler threads that
+                    # are still inside the application
+                    mech = "quick-shutdown-waits-for-busy-handler-threads/gthread"
+                v.append((mech, "%s: master exited %.2f s after the signal, limit %.1f (graceful_timeout=%d)" % (
                     signame, t_exit - t_sig, limit, graceful)))
         # ---- client side -----------------------------------------------------------------------
         for t in threads:
@@ -326,7 +332,8 @@ def scenarios(tier, seed):
                         "phases": list(PHASES), "duration": "finishes", "app_delay": rng.choice([0.2, 0.5, 1.0])})
     for wc in classes:
         for signame in ("INT", "QUIT"):
-            out.append({"class": wc, "signal": signame, "bind": rng.choice(["tcp", "unix"]), "graceful": 3,
+            # (a long graceful timeout: a quick shutdown must not take that long)
+            out.append({"class": wc, "signal": signame, "bind": rng.choice(["tcp", "unix"]), "graceful": 12,
                         "phases": ["idle", "app", "keepalive"], "duration": "never"})
     for wc in classes:
         out.append({"class": wc, "signal": "TERM", "bind": "tcp", "graceful": 2, "phases": ["app", "stream"],
